@@ -303,7 +303,7 @@ class PythonConstructRenderer:
             for name, type_hint, _, field_desc in required_fields:
                 line = f"{name}: {type_hint}"
                 if field_desc:
-                    comment_text = field_desc.replace("\n", " ")
+                    comment_text = field_desc.replace("\n", " ").replace("\r", " ").replace("\0", " ")
                     line += f"  # {comment_text}"
                 writer.write_line(line)
 
@@ -313,7 +313,7 @@ class PythonConstructRenderer:
                     context.add_import("dataclasses", "field")  # Ensure field is imported
                 line = f"{name}: {type_hint} = {default_expr}"
                 if field_desc:
-                    comment_text = field_desc.replace("\n", " ")
+                    comment_text = field_desc.replace("\n", " ").replace("\r", " ").replace("\0", " ")
                     line += f"  # {comment_text}"
                 writer.write_line(line)
 
